@@ -280,7 +280,7 @@ def gen_acts(rng):
             atom = rng.choice(ATOMS)
             cur = [x for x in env.get(k, "").split(":") if x]
             if fwd:
-                res = _uniq(cur + [atom] if append else [atom] + cur)
+                res = _uniq([x for x in cur if x != atom] + [atom] if append else [atom] + cur)   # append moves a present element last (D8 repaired)
             else:
                 res = [x for x in _uniq(cur) if x != atom]
             v = ":".join(res)
